@@ -206,6 +206,14 @@ def check_string(cx, http, DS, s):
         w = DS.WWWAuthenticate("custom", {"realm": s, "x": s})
         d = w.to_header()
         cx.eq("www-authenticate", s, d, DS.WWWAuthenticate.from_header(d), w, "C06/www-authenticate-custom")
+        # an existing challenge whose scheme is re-bound afterwards, in whatever letter case the application writes it
+        w = DS.WWWAuthenticate("basic", {"realm": s, "nonce": "n"})
+        w.type = ("Digest", "DIGEST", "Custom", "digest")[len(s) % 4]
+        d = w.to_header()
+        back = DS.WWWAuthenticate.from_header(d)
+        cx.eq("www-authenticate", s, d, (back, back.type, dict(back.parameters)), (w, w.type, dict(w.parameters)), "C06/www-authenticate-type-rebound")
+        ref_w = DS.WWWAuthenticate(w.type.lower(), {"realm": s, "nonce": "n"})
+        cx.eq("www-authenticate", s, d, d, ref_w.to_header(), "C06/www-authenticate-type-rebound")
         # history: a challenge that was already rendered (str, repr, to_header) is edited through its parameter mapping
         # and its attributes, and rendered again - what is serialised is what it holds now
         str(w), repr(w)
